@@ -34,22 +34,26 @@ func main() { harness.Main("C13", "exploration", run) }
 func run(e *harness.Env) {
 	e.Track = true
 	e.CaseDeadline = 20 * time.Second // backstop only: a split of these texts takes micro- to milliseconds
-	e.Rule = "full product per sub-space. Texts = every sequence of <=L segments over {ASCII word, 120-byte token, CJK run, spaced CJK words, emoji, base+2 combining marks, " +
-		"sentences of 60/150/200/250 bytes ending in '. ', '? ', newline, blank line, NBSP, NEL, dotted abbreviation, decimal number} with one repetition factor r in {1,8,40} for the repeatable segments; " +
-		"split: texts x unit{characters,tokens,words,sentences,paragraphs} x limit{1,2,5,50,200,800} x TokensPerChar{0.25,1,0 (tokens only)} (limits<50 on texts one segment shorter); " +
-		"point: FindSplitPointAt/FindSplitPoint on the same grid; bnd: paragraph-block sequences with detector boundaries x SplitAtSemanticBoundaries; " +
-		"ovl: texts x strategy{none,character,sentence,paragraph} x size{1,2,10,100} x PreserveWords x MaxOverlap{0,50,300} x MinOverlap{0,20}; " +
-		"apply: position-marked chunk-text sequences x the overlap grid x IncludeHeadingContext; chunker/docchunk: documents of 1-2 paragraphs (with/without heading) x MaxChunkSize or size config x overlap size x sentence/character overlap. " +
-		"A case is distinct by its descriptor; non-trivial = the input had to be split or an overlap was produced (a clause beyond termination was exercised)"
+	L := 3
+	if e.Thorough() {
+		L = 4
+	}
+	e.Rule = fmt.Sprintf("full product per sub-space (no sampling). Texts = every sequence of 0..n segments over {ASCII word, 120-byte token, CJK run, spaced CJK words, emoji, base+2 combining marks, "+
+		"sentences of 60/150/200/250 bytes ending in '. ', '? ', newline, blank line, NBSP, NEL, dotted abbreviation, decimal number} with one repetition factor r in {1,8,40} for the repeatable segments. "+
+		"split (n<=%d%s): texts x unit{characters,tokens,words,sentences,paragraphs} x limit{1,2,5,50,200,800} (sentences/paragraphs only 1,2,5 and words up to 200: larger ones cannot engage on texts of this size) x TokensPerChar{0.25,1,0 (token unit only)}; "+
+		"point (n<=%d): FindSplitPointAt and FindSplitPoint on the same grid; bnd: sequences of <=%d paragraph blocks out of 10 with BoundaryDetector boundaries x SplitAtSemanticBoundaries x the grid; "+
+		"ovl (n<=%d): texts x strategy{none,character,sentence,paragraph} x size{1,2,10,100} x PreserveWords x MaxOverlap{0,50,300} x MinOverlap{0,20}; "+
+		"apply: sequences of 2..%d position-marked chunk texts out of 8 kinds x the overlap grid x IncludeHeadingContext; "+
+		"chunker (n<=%d): one-page documents {paragraph, intro+paragraph, H1+paragraph} x MaxChunkSize{1,2,5,50,200,800} x OverlapSize{0,1,2,10,100} x OverlapSentences, Chunk and ChunkWithOverlapEnabled; "+
+		"docchunk (n<=%d): ChunkDocumentWithConfig on {paragraph, intro+paragraph} x the size grid. "+
+		"A case is distinct by its descriptor; non-trivial = the input had to be split or an overlap was produced (a clause beyond termination was exercised)",
+		L, map[bool]string{false: "", true: "; limits<50 only for n<=3; plus every 5-segment sequence over 8 segment kinds with r in {1,8}, limits>=50"}[e.Thorough()],
+		L-1, map[bool]int{false: 2, true: 3}[e.Thorough()], L-1, map[bool]int{false: 3, true: 4}[e.Thorough()], L-1, L-1)
 	e.Assumptions = []string{
 		"Go's unicode.IsSpace / utf8.ValidString define white space and UTF-8 validity",
 		"size of a piece is measured in runes for 'characters' and int(runes*ratio) for tokens (weakest reading; tabula itself counts bytes, which is never smaller)",
 		"'break opportunity within the maximum' = the quantifier's precondition: limit >= 200 and an ASCII space at least every 50 bytes",
 		"'configured overlap bounds' = MaxOverlap (MinOverlap and Size are targets, not bounds)",
-	}
-	L := 3
-	if e.Thorough() {
-		L = 4
 	}
 	e.Note("max_segments", fmt.Sprint(L))
 	// C13_SPACES (development only, never set by registered commands): comma list of sub-spaces to run
@@ -82,13 +86,17 @@ func run(e *harness.Env) {
 }
 
 // fail records a failing case. Every failing descriptor is kept (known-finding matching needs it),
-// but the detail text and input files only for the first 200 cases of a signature per worker.
+// but the detail text and input files only for the first 200 cases of a signature per sub-space and worker.
 var failSeen = map[string]int{}
 
 func fail(e *harness.Env, desc, sig, det string, files map[string][]byte) {
-	failSeen[sig]++
-	if failSeen[sig] > 200 && !e.Replaying() {
-		det, files = "(detail omitted after 200 cases of this signature in this worker; replay the case to see it)", nil
+	key := sig
+	if i := strings.IndexByte(desc, ' '); i > 0 {
+		key = desc[:i] + " " + sig // per sub-space and signature
+	}
+	failSeen[key]++
+	if failSeen[key] > 200 && !e.Replaying() {
+		det, files = "(detail omitted after 200 cases of this signature in this sub-space and worker; replay the case to see it)", nil
 	}
 	e.Fail(desc, sig, det, files)
 }
@@ -142,6 +150,11 @@ var sizeGrid = func() []sizeCase {
 			for _, tp := range tpcs {
 				if u.u != rag.SizeUnitTokens && tp.name != "0.25" {
 					continue // the ratio only enters the token unit
+				}
+				// limits that can never engage on texts of <= 5 segments (<= ~4 KB): 50+ sentences or
+				// paragraphs (4000+ bytes by the documented estimates) and 800 words (4800 bytes)
+				if ((u.u == rag.SizeUnitSentences || u.u == rag.SizeUnitParagraphs) && lim >= 50) || (u.u == rag.SizeUnitWords && lim >= 800) {
+					continue
 				}
 				out = append(out, sizeCase{u, lim, tp, harness.D("unit", u.name, "limit", lim, "tpc", tp.name)})
 			}
@@ -266,8 +279,12 @@ func splitSpace(e *harness.Env, L int) {
 			})
 		}
 	}
-	forTexts(allAlpha(), 0, L, []int{1, 8, 40}, body(L))
-	if e.Thorough() {
+	if !e.Thorough() {
+		forTexts(allAlpha(), 0, L, []int{1, 8, 40}, body(L+1)) // quick: <=3 segments, every limit
+		return
+	}
+	forTexts(allAlpha(), 0, L, []int{1, 8, 40}, body(L)) // thorough: <=3 segments every limit, 4 segments limits>=50
+	{
 		forTexts(alphaIndex(reducedAlpha...), L+1, L+1, []int{1, 8}, body(L))
 		e.Note("split_extra", fmt.Sprintf("all sequences of exactly %d segments over %v, r in {1,8}, limits>=50", L+1, reducedAlpha))
 	}
